@@ -142,7 +142,7 @@ static void first_use (VResult *r, int mode, int eager)
         "  %s fu_add (d, a, b, 37); for (i = 0; i < 37; i++) if (d[i] != (short) (a[i] + b[i])) return 2; for (; i < 40; i++) if (d[i]) return 3; return 0; }\n", eager ? "fu_init ();" : "");
     fclose (f);
   }
-  snprintf (cmd, sizeof cmd, "gcc -std=gnu11 -O2 -fPIC -shared -w -DORC_ENABLE_UNSTABLE_API %s -I%s -o %s/fu.so %s/impl.c %s/main.c > %s/e 2>&1", inc, dir, dir, dir, dir, dir);
+  snprintf (cmd, sizeof cmd, "TMPDIR=%s gcc -std=gnu11 -O2 -fPIC -shared -w -DORC_ENABLE_UNSTABLE_API %s -I%s -o %s/fu.so %s/impl.c %s/main.c > %s/e 2>&1", dir, inc, dir, dir, dir, dir, dir);
   snprintf (path, sizeof path, "%s/e", dir);
   if (run_cmd (cmd, err, sizeof err, path) != 0) { v_fail (r, "cc:rejects-generated-code", "gcc rejects orcc output for a trivial file: %.300s", err); return; }
   if (modes[mode]) setenv ("ORC_CODE", modes[mode], 1); else unsetenv ("ORC_CODE");
@@ -330,8 +330,8 @@ void vprop_case (VChoices *c, VResult *r)
   snprintf (path, sizeof path, "%s/caller.c", dir);
   { FILE *fo = fopen (path, "w"); if (!fo) { r->verdict = V_DISCARD; goto out; } fputs (caller.s, fo); fclose (fo); }
   v_stage (r, "gcc");
-  snprintf (cmd, sizeof cmd, "gcc -std=gnu11 -O2 -fPIC -shared -w -fno-fast-math -ffp-contract=off -DORC_ENABLE_UNSTABLE_API %s %s -I%s -o %s/fn.so %s/impl.c %s/caller.c > %s/cc.err 2>&1",
-      mode == 3 ? "-DDISABLE_ORC" : "", inc, dir, dir, dir, dir, dir);
+  snprintf (cmd, sizeof cmd, "TMPDIR=%s gcc -std=gnu11 -O2 -fPIC -shared -w -fno-fast-math -ffp-contract=off -DORC_ENABLE_UNSTABLE_API %s %s -I%s -o %s/fn.so %s/impl.c %s/caller.c > %s/cc.err 2>&1",
+      dir, mode == 3 ? "-DDISABLE_ORC" : "", inc, dir, dir, dir, dir, dir);
   snprintf (path, sizeof path, "%s/cc.err", dir);
   rcx = run_cmd (cmd, err, sizeof err, path);
   if (rcx != 0) {
